@@ -244,6 +244,15 @@ class TransactionManager(Elaboratable):
                 if (common_ancestors := longest_common_prefix(call1.ancestors, call2.ancestors))
             )
 
+        def calls_exclusive(trans: TBody, elem1: Body, elem2: Body):
+            if elem1 is trans or elem2 is trans:
+                return False
+            return all(
+                call_paths_exclusive(call1.call_path, call2.call_path)
+                for call1 in method_map.info_by_call[(trans, MBody(elem1))]
+                for call2 in method_map.info_by_call[(trans, MBody(elem2))]
+            )
+
         cgr: TransactionGraph = {}  # Conflict graph
         pgr: TransactionGraph = {}  # Priority graph
 
@@ -281,6 +290,15 @@ class TransactionManager(Elaboratable):
 
             for trans_start in method_map.transactions_for(start):
                 for trans_end in method_map.transactions_for(end):
+                    if relation.conflict and trans_start is trans_end:
+                        # A transaction which uses both sides of a conflict can only do so on mutually
+                        # exclusive paths; otherwise the conflicting bodies would run together.
+                        if not calls_exclusive(trans_start, start, end):
+                            raise RuntimeError(
+                                f"Transaction '{trans_start.name}' {trans_start.src_loc} uses both "
+                                f"'{start.name}' {start.src_loc} and '{end.name}' {end.src_loc}, which are in conflict"
+                            )
+                        continue
                     conflict = relation.conflict and not TransactionManager._transactions_exclusive(
                         method_map, trans_start, trans_end
                     )
